@@ -174,6 +174,11 @@ def _body(
     if ORACLE == "C10":
         return I.mem_ok_vehicle(sim2, v_post)
     if ORACLE == "C17":
+        if accepted and isinstance(v_post.vehicle_state, A.DispatchTrip):
+            # an accepted dispatch leaves the request recording a vehicle (else the dispatcher would send a second one)
+            r = sim2.requests.get(v_post.vehicle_state.request_id)
+            if r is None or r.dispatched_vehicle != "v0":
+                return False
         return I.req_ok(sim2, w.vids)
     if ORACLE == "C03":
         # applying an instruction never resolves, creates or loses a request, and cannot divert a
